@@ -312,6 +312,7 @@ type sched struct {
 	srv    *t38.Srv
 	events chan event
 	off    bool
+	wantBG bool // park log writes made outside a connection's pre-write step too (background flusher)
 	mu     sync.Mutex
 }
 
@@ -344,7 +345,14 @@ func newSched(t ev.Failer) *sched {
 			return
 		}
 		if name == "aof-write" && !inPrewrite() {
-			return // background flusher, shrink, shutdown: not a connection's pre-write step
+			// background flusher, shrink, shutdown: not a connection's pre-write step
+			s.mu.Lock()
+			want := s.wantBG
+			s.mu.Unlock()
+			if !want {
+				return
+			}
+			name = "bg-aof-write"
 		}
 		a := &arrival{name: name, goid: goid(), release: make(chan struct{})}
 		s.events <- event{arr: a}
@@ -846,6 +854,16 @@ func TestReplay(t *testing.T) {
 		for i := 0; i < 50; i++ {
 			runBlackBox(t, c, srv, bc)
 		}
+	case "bgflush":
+		var bc bgCase
+		if err := json.Unmarshal(doc.Data, &bc); err != nil {
+			t.Fatal(err)
+		}
+		for i := 0; i < 5; i++ {
+			runBGFlush(t, c, bc)
+		}
+	case "promotion":
+		runPromotion(t, c, 10)
 	default:
 		var sc schedCase
 		if err := json.Unmarshal(doc.Data, &sc); err != nil {
